@@ -2,6 +2,7 @@
 #![allow(clippy::type_complexity)]
 
 mod common;
+mod crash;
 mod props;
 mod rawmodel;
 mod vecmodel;
@@ -29,6 +30,8 @@ fn main() {
         "C02" => main_for::<props::c02::P>(rest),
         "C03" => main_for::<props::c03::P>(rest),
         "C04" => main_for::<props::c04::P>(rest),
+        "C05" => main_for::<props::c05::P>(rest),
+        "C12" => main_for::<props::c12::P>(rest),
         "C07" => main_for::<props::c07::P>(rest),
         "C08" => main_for::<props::c08::P>(rest),
         "C13" => main_for::<props::c13::P>(rest),
